@@ -1,1 +1,468 @@
-fn main() {}
+//! The hostile target process. `vtarget <spec.json>` builds the requested process state
+//! (regions at fixed addresses, sentinel threads with known registers, heartbeat/exiter threads,
+//! open descriptors, names), publishes a manifest and then waits to be dumped.
+
+use std::arch::asm;
+use std::ffi::CString;
+use std::sync::atomic::{AtomicU64, Ordering};
+use vh::spec::*;
+
+#[repr(C)]
+struct RawRegs {
+    gpr: [u64; 16],      // 0
+    rflags: u64,         // 128
+    ds: u64,             // 136
+    es: u64,             // 144
+    gs: u64,             // 152
+    set_seg: u64,        // 160
+    mxcsr: u32,          // 168
+    fcw: u32,            // 172
+    xmm: [[u8; 16]; 16], // 176
+    st: [[u8; 16]; 8],   // 432
+    entry: u64,          // 560
+}
+
+fn ctl(off: u64) -> &'static AtomicU64 {
+    unsafe { &*((CTL_ADDR + off) as *const AtomicU64) }
+}
+fn slot(i: usize, field: u64) -> &'static AtomicU64 {
+    unsafe { &*((slot_addr(i) + field) as *const AtomicU64) }
+}
+
+fn gettid() -> i32 {
+    unsafe { libc::syscall(libc::SYS_gettid) as i32 }
+}
+
+unsafe fn enter_sentinel(r: *const RawRegs) -> ! {
+    asm!(
+        "fninit",
+        "fld tbyte ptr [rax+432]",
+        "fld tbyte ptr [rax+448]",
+        "fld tbyte ptr [rax+464]",
+        "fld tbyte ptr [rax+480]",
+        "fld tbyte ptr [rax+496]",
+        "fld tbyte ptr [rax+512]",
+        "fld tbyte ptr [rax+528]",
+        "fld tbyte ptr [rax+544]",
+        "fldcw word ptr [rax+172]",
+        "ldmxcsr dword ptr [rax+168]",
+        "movdqu xmm0, [rax+176]",
+        "movdqu xmm1, [rax+192]",
+        "movdqu xmm2, [rax+208]",
+        "movdqu xmm3, [rax+224]",
+        "movdqu xmm4, [rax+240]",
+        "movdqu xmm5, [rax+256]",
+        "movdqu xmm6, [rax+272]",
+        "movdqu xmm7, [rax+288]",
+        "movdqu xmm8, [rax+304]",
+        "movdqu xmm9, [rax+320]",
+        "movdqu xmm10, [rax+336]",
+        "movdqu xmm11, [rax+352]",
+        "movdqu xmm12, [rax+368]",
+        "movdqu xmm13, [rax+384]",
+        "movdqu xmm14, [rax+400]",
+        "movdqu xmm15, [rax+416]",
+        "cmp qword ptr [rax+160], 0",
+        "je 2f",
+        "mov rbx, [rax+136]",
+        "mov ds, bx",
+        "mov rbx, [rax+144]",
+        "mov es, bx",
+        "mov rbx, [rax+152]",
+        "mov gs, bx",
+        "2:",
+        "push qword ptr [rax+128]",
+        "popfq",
+        "mov rbx, [rax+8]",
+        "mov rcx, [rax+16]",
+        "mov rdx, [rax+24]",
+        "mov rsi, [rax+32]",
+        "mov rdi, [rax+40]",
+        "mov rbp, [rax+48]",
+        "mov rsp, [rax+56]",
+        "mov r8, [rax+64]",
+        "mov r9, [rax+72]",
+        "mov r10, [rax+80]",
+        "mov r11, [rax+88]",
+        "mov r12, [rax+96]",
+        "mov r13, [rax+104]",
+        "mov r14, [rax+112]",
+        "mov r15, [rax+120]",
+        "mov rax, [rax]",
+        "jmp qword ptr [r15+40]",
+        in("rax") r,
+        options(noreturn)
+    );
+}
+
+fn set_name(name: &[u8]) {
+    let mut buf = [0u8; 16];
+    let n = std::cmp::min(15, name.len());
+    buf[..n].copy_from_slice(&name[..n]);
+    unsafe {
+        libc::prctl(libc::PR_SET_NAME, buf.as_ptr() as libc::c_ulong, 0, 0, 0);
+    }
+}
+
+fn block_all_signals() {
+    unsafe {
+        let mut set: libc::sigset_t = std::mem::zeroed();
+        libc::sigfillset(&mut set);
+        libc::pthread_sigmask(libc::SIG_SETMASK, &set, std::ptr::null_mut());
+    }
+}
+
+static NSLOTS: AtomicU64 = AtomicU64::new(0);
+
+extern "C" fn on_signal(sig: libc::c_int, info: *mut libc::siginfo_t, _uc: *mut libc::c_void) {
+    let tid = gettid() as u64;
+    let n = NSLOTS.load(Ordering::Relaxed) as usize;
+    for i in 0..n {
+        if slot(i, SLOT_TID).load(Ordering::Relaxed) == tid {
+            let k = slot(i, SLOT_SIGCOUNT).fetch_add(1, Ordering::SeqCst);
+            if k < SIGLOG_SIZE / 16 {
+                let base = CTL_ADDR + SIGLOG_BASE + i as u64 * SIGLOG_SIZE + k * 16;
+                unsafe {
+                    let code = (*info).si_code as u32;
+                    let val = *((info as *const u8).add(24) as *const u64);
+                    *(base as *mut u32) = sig as u32;
+                    *((base + 4) as *mut u32) = code;
+                    *((base + 8) as *mut u64) = val;
+                }
+            }
+            ctl(CTL_ACK_SIGS).fetch_add(1, Ordering::SeqCst);
+            return;
+        }
+    }
+}
+
+const MAP_FIXED_NOREPLACE: libc::c_int = 0x100000;
+
+fn prot_bits(p: u8) -> libc::c_int {
+    let mut r = 0;
+    if p & 4 != 0 {
+        r |= libc::PROT_READ;
+    }
+    if p & 2 != 0 {
+        r |= libc::PROT_WRITE;
+    }
+    if p & 1 != 0 {
+        r |= libc::PROT_EXEC;
+    }
+    r
+}
+
+fn map_region(r: &Region, errors: &mut Vec<String>) {
+    let needs_write = !matches!(r.fill, Fill::Keep) || !r.pokes.is_empty();
+    let final_prot = prot_bits(r.prot);
+    let map_prot = if needs_write { libc::PROT_READ | libc::PROT_WRITE } else { final_prot };
+    let p = unsafe {
+        match &r.kind {
+            RegionKind::Anon => libc::mmap(r.addr as *mut _, r.len as usize, map_prot, libc::MAP_PRIVATE | libc::MAP_ANONYMOUS | MAP_FIXED_NOREPLACE, -1, 0),
+            RegionKind::File { path, offset } => {
+                let c = CString::new(path.as_bytes()).unwrap();
+                let fd = libc::open(c.as_ptr(), libc::O_RDONLY);
+                if fd < 0 {
+                    errors.push(format!("open {path}: {}", std::io::Error::last_os_error()));
+                    return;
+                }
+                let p = libc::mmap(r.addr as *mut _, r.len as usize, map_prot, libc::MAP_PRIVATE | MAP_FIXED_NOREPLACE, fd, *offset as libc::off_t);
+                libc::close(fd);
+                p
+            }
+            RegionKind::SharedFile { path, offset } => {
+                let c = CString::new(path.as_bytes()).unwrap();
+                let fd = libc::open(c.as_ptr(), if needs_write || r.prot & 2 != 0 { libc::O_RDWR } else { libc::O_RDONLY });
+                if fd < 0 {
+                    errors.push(format!("open {path}: {}", std::io::Error::last_os_error()));
+                    return;
+                }
+                let p = libc::mmap(r.addr as *mut _, r.len as usize, map_prot, libc::MAP_SHARED | MAP_FIXED_NOREPLACE, fd, *offset as libc::off_t);
+                libc::close(fd);
+                p
+            }
+        }
+    };
+    if p == libc::MAP_FAILED || p as u64 != r.addr {
+        errors.push(format!("mmap {:x}+{:x}: {}", r.addr, r.len, std::io::Error::last_os_error()));
+        return;
+    }
+    unsafe {
+        match r.fill {
+            Fill::Keep => {}
+            Fill::Zero => std::ptr::write_bytes(r.addr as *mut u8, 0, r.len as usize),
+            Fill::Pattern => {
+                for a in r.addr..r.addr + r.len {
+                    *(a as *mut u8) = vh::rng::pat(a);
+                }
+            }
+        }
+        for (addr, bytes) in &r.pokes {
+            if *addr >= r.addr && addr + bytes.len() as u64 <= r.addr + r.len {
+                std::ptr::copy_nonoverlapping(bytes.as_ptr(), *addr as *mut u8, bytes.len());
+            } else {
+                errors.push(format!("poke {:x}+{} outside region {:x}+{:x}", addr, bytes.len(), r.addr, r.len));
+            }
+        }
+        if needs_write && map_prot != final_prot && libc::mprotect(r.addr as *mut _, r.len as usize, final_prot) != 0 {
+            errors.push(format!("mprotect {:x}: {}", r.addr, std::io::Error::last_os_error()));
+        }
+    }
+    if r.unlink_after {
+        if let RegionKind::File { path, .. } | RegionKind::SharedFile { path, .. } = &r.kind {
+            let _ = std::fs::remove_file(path);
+        }
+    }
+}
+
+fn to_raw(regs: &RegBlock, entry: u64) -> Box<RawRegs> {
+    let mut r: Box<RawRegs> = unsafe { Box::new(std::mem::zeroed()) };
+    for i in 0..16 {
+        r.gpr[i] = regs.gpr[i];
+    }
+    r.rflags = regs.rflags;
+    r.ds = regs.ds as u64;
+    r.es = regs.es as u64;
+    r.gs = regs.gs as u64;
+    r.set_seg = regs.set_segments as u64;
+    r.mxcsr = regs.mxcsr;
+    r.fcw = regs.fcw as u32;
+    for i in 0..16 {
+        r.xmm[i].copy_from_slice(&regs.xmm[i]);
+    }
+    for i in 0..8 {
+        r.st[i][..10].copy_from_slice(&regs.st[i]);
+    }
+    r.entry = entry;
+    r
+}
+
+extern "C" {
+    static _DYNAMIC: [u64; 2];
+}
+
+#[repr(C)]
+struct RDebugC {
+    r_version: i32,
+    r_map: u64,
+    r_brk: u64,
+    r_state: i32,
+    r_ldbase: u64,
+}
+#[repr(C)]
+struct LinkMapC {
+    l_addr: u64,
+    l_name: *const libc::c_char,
+    l_ld: u64,
+    l_next: *const LinkMapC,
+    l_prev: *const LinkMapC,
+}
+
+fn fill_linker_info(m: &mut Manifest) {
+    unsafe {
+        let mut p = _DYNAMIC.as_ptr();
+        m.dynamic_addr = p as u64;
+        let mut rdebug: u64 = 0;
+        loop {
+            let tag = *p;
+            let val = *p.add(1);
+            if tag == 0 {
+                break;
+            }
+            if tag == 21 {
+                rdebug = val;
+            }
+            p = p.add(2);
+        }
+        m.r_debug_addr = rdebug;
+        if rdebug != 0 {
+            let rd = &*(rdebug as *const RDebugC);
+            m.r_version = rd.r_version;
+            m.r_brk = rd.r_brk;
+            m.r_ldbase = rd.r_ldbase;
+            let mut lm = rd.r_map as *const LinkMapC;
+            while !lm.is_null() && m.link_map.len() < 1000 {
+                let name = if (*lm).l_name.is_null() { String::new() } else { std::ffi::CStr::from_ptr((*lm).l_name).to_string_lossy().into_owned() };
+                m.link_map.push(((*lm).l_addr, name, (*lm).l_ld));
+                lm = (*lm).l_next;
+            }
+        }
+        m.at_phdr = libc::getauxval(libc::AT_PHDR);
+        m.at_phnum = libc::getauxval(libc::AT_PHNUM);
+        m.at_entry = libc::getauxval(libc::AT_ENTRY);
+        m.at_sysinfo_ehdr = libc::getauxval(libc::AT_SYSINFO_EHDR);
+    }
+}
+
+fn open_fds(spec: &Spec, m: &mut Manifest) {
+    for f in &spec.fds {
+        unsafe {
+            match f {
+                FdSpec::File { path } | FdSpec::DeletedFile { path } => {
+                    let c = CString::new(path.as_bytes()).unwrap();
+                    let fd = libc::open(c.as_ptr(), libc::O_RDWR | libc::O_CREAT, 0o640);
+                    m.fds.push(fd);
+                    if matches!(f, FdSpec::DeletedFile { .. }) {
+                        libc::unlink(c.as_ptr());
+                    }
+                }
+                FdSpec::Dir { path } => {
+                    let c = CString::new(path.as_bytes()).unwrap();
+                    m.fds.push(libc::open(c.as_ptr(), libc::O_RDONLY | libc::O_DIRECTORY));
+                }
+                FdSpec::Pipe => {
+                    let mut p = [0i32; 2];
+                    libc::pipe(p.as_mut_ptr());
+                    m.fds.push(p[0]);
+                    m.fds.push(p[1]);
+                }
+                FdSpec::Socket => {
+                    let mut p = [0i32; 2];
+                    libc::socketpair(libc::AF_UNIX, libc::SOCK_STREAM, 0, p.as_mut_ptr());
+                    m.fds.push(p[0]);
+                    m.fds.push(p[1]);
+                }
+                FdSpec::EventFd => m.fds.push(libc::eventfd(0, 0)),
+                FdSpec::DevNull => {
+                    let c = CString::new("/dev/null").unwrap();
+                    m.fds.push(libc::open(c.as_ptr(), libc::O_RDWR));
+                }
+            }
+        }
+    }
+}
+
+fn main() {
+    let args: Vec<String> = std::env::args().collect();
+    if args.len() < 2 || args[1] == "idle" {
+        // a trivial single-threaded process
+        loop {
+            std::thread::sleep(std::time::Duration::from_millis(100));
+            if unsafe { libc::getppid() } == 1 {
+                return;
+            }
+        }
+    }
+    let orig_ppid = unsafe { libc::getppid() };
+    let spec: Spec = serde_json::from_slice(&std::fs::read(&args[1]).expect("spec")).expect("spec json");
+    let mut m = Manifest { pid: std::process::id() as i32, main_tid: gettid(), ..Default::default() };
+
+    // control mapping (shared with the harness through the file <dir>/ctl)
+    unsafe {
+        let path = CString::new(format!("{}/ctl", spec.dir)).unwrap();
+        let fd = libc::open(path.as_ptr(), libc::O_RDWR);
+        assert!(fd >= 0, "control file");
+        let p = libc::mmap(CTL_ADDR as *mut _, CTL_LEN as usize, libc::PROT_READ | libc::PROT_WRITE, libc::MAP_SHARED | MAP_FIXED_NOREPLACE, fd, 0);
+        assert_eq!(p as u64, CTL_ADDR, "control mapping");
+        libc::close(fd);
+    }
+    if spec.threads.len() + 1 > MAX_THREADS {
+        m.errors.push("too many threads".into());
+    }
+    NSLOTS.store(spec.threads.len() as u64 + 1, Ordering::SeqCst);
+    let main_slot = spec.threads.len();
+    slot(main_slot, SLOT_TID).store(gettid() as u64, Ordering::SeqCst);
+
+    for r in &spec.regions {
+        map_region(r, &mut m.errors);
+    }
+    open_fds(&spec, &mut m);
+
+    for sig in &spec.handle_signals {
+        unsafe {
+            let mut act: libc::sigaction = std::mem::zeroed();
+            act.sa_sigaction = on_signal as usize;
+            act.sa_flags = libc::SA_SIGINFO | libc::SA_RESTART;
+            libc::sigemptyset(&mut act.sa_mask);
+            libc::sigaction(*sig, &act, std::ptr::null_mut());
+        }
+    }
+
+    for (i, t) in spec.threads.iter().enumerate() {
+        let t = t.clone();
+        let b = std::thread::Builder::new().stack_size(256 * 1024);
+        let r = b.spawn(move || {
+            if let Some(n) = &t.name {
+                set_name(n);
+            }
+            match &t.kind {
+                ThreadKind::Sentinel { regs, entry } => {
+                    block_all_signals();
+                    let raw = Box::leak(to_raw(regs, *entry));
+                    slot(i, SLOT_ENTRY).store(*entry, Ordering::SeqCst);
+                    slot(i, SLOT_TID).store(gettid() as u64, Ordering::SeqCst);
+                    unsafe { enter_sentinel(raw) }
+                }
+                ThreadKind::Heartbeat => {
+                    slot(i, SLOT_TID).store(gettid() as u64, Ordering::SeqCst);
+                    slot(i, SLOT_READY).store(1, Ordering::SeqCst);
+                    loop {
+                        slot(i, SLOT_HEARTBEAT).fetch_add(1, Ordering::SeqCst);
+                        unsafe {
+                            let ts = libc::timespec { tv_sec: 0, tv_nsec: 200_000 };
+                            libc::nanosleep(&ts, std::ptr::null_mut());
+                        }
+                    }
+                }
+                ThreadKind::Exiter => {
+                    slot(i, SLOT_TID).store(gettid() as u64, Ordering::SeqCst);
+                    slot(i, SLOT_READY).store(1, Ordering::SeqCst);
+                    loop {
+                        if slot(i, SLOT_EXIT_REQ).load(Ordering::SeqCst) != 0 {
+                            slot(i, SLOT_GONE).store(1, Ordering::SeqCst);
+                            unsafe {
+                                libc::syscall(libc::SYS_exit, 0);
+                            }
+                        }
+                        slot(i, SLOT_HEARTBEAT).fetch_add(1, Ordering::SeqCst);
+                        unsafe {
+                            let ts = libc::timespec { tv_sec: 0, tv_nsec: 100_000 };
+                            libc::nanosleep(&ts, std::ptr::null_mut());
+                        }
+                    }
+                }
+                ThreadKind::Sleeper => {
+                    slot(i, SLOT_TID).store(gettid() as u64, Ordering::SeqCst);
+                    slot(i, SLOT_READY).store(1, Ordering::SeqCst);
+                    loop {
+                        std::thread::sleep(std::time::Duration::from_secs(3600));
+                    }
+                }
+            }
+        });
+        if let Err(e) = r {
+            m.errors.push(format!("spawn thread {i}: {e}"));
+        }
+    }
+    // wait until every thread has published its tid
+    let t0 = std::time::Instant::now();
+    loop {
+        let all = (0..spec.threads.len()).all(|i| slot(i, SLOT_TID).load(Ordering::SeqCst) != 0);
+        if all || t0.elapsed().as_secs() > 20 {
+            break;
+        }
+        std::thread::sleep(std::time::Duration::from_micros(200));
+    }
+    m.tids = (0..spec.threads.len()).map(|i| slot(i, SLOT_TID).load(Ordering::SeqCst) as i32).collect();
+    fill_linker_info(&mut m);
+    if let Some(n) = &spec.main_name {
+        set_name(n);
+    }
+    let tmp = format!("{}/manifest.json.tmp", spec.dir);
+    std::fs::write(&tmp, serde_json::to_vec(&m).unwrap()).expect("manifest");
+    std::fs::rename(&tmp, format!("{}/manifest.json", spec.dir)).expect("manifest rename");
+    ctl(CTL_READY).store(1, Ordering::SeqCst);
+
+    if spec.leader_exit {
+        unsafe {
+            libc::syscall(libc::SYS_exit, 0);
+        }
+    }
+    loop {
+        slot(main_slot, SLOT_HEARTBEAT).fetch_add(1, Ordering::SeqCst);
+        std::thread::sleep(std::time::Duration::from_millis(20));
+        if ctl(CTL_QUIT).load(Ordering::SeqCst) != 0 || unsafe { libc::getppid() } != orig_ppid {
+            std::process::exit(0);
+        }
+    }
+}
